@@ -28,9 +28,8 @@ payload is the configured pattern."
 namespace TV.Props.C11
 open TV TV.Wire TV.Rfc1071 TV.Decode
 
-/-- the probe's fields are machine values (`u16` / `u8`) -/
-def ProbeOk (p : Strat.Probe) : Prop :=
-  p.seq < 65536 ∧ p.ident < 65536 ∧ p.srcPort < 65536 ∧ p.destPort < 65536 ∧ p.ttl ≤ 255
+-- `ProbeOk p` (`Lemmas/Wire.lean`): the probe's fields are machine values (`u16` / `u8`):
+-- `p.seq < 65536 ∧ p.ident < 65536 ∧ p.srcPort < 65536 ∧ p.destPort < 65536 ∧ p.ttl ≤ 255`
 
 /-- the IPv4 header every raw IPv4 probe must decode to -/
 def ip4Expected (c : ChanCfg) (total ident ttl proto : Nat) : IPv4Hdr :=
